@@ -34,6 +34,9 @@ func deepFuncs(fn *ssa.Function, depth int) []*ssa.Function {
 				return
 			}
 			g := staticCallee(cc)
+			if g != nil && g.Synthetic != "" {
+				g = origin(g) // instantiation wrapper of a generic helper: the generic body
+			}
 			if g == nil || fnPkgPath(g) != fnPkgPath(fn) || !strings.HasPrefix(fnPkgPath(g), Mod) {
 				return
 			}
